@@ -199,6 +199,16 @@ def run_property(prop, tier, seed):
     violations = []
     for o, _ in failed:
         path, reproduced = write_replay(prop, o, R, repo.root)
+        # a recorded finding that came back: its native witness script is the replay
+        for f in findings:
+            if f['property'] == prop and f.get('witness') and any(fnmatch.fnmatch(o.id, pat) for pat in f['obligations']):
+                w = os.path.join(VERIF, f['witness'])
+                try:
+                    p = subprocess.run([VENV_PY, w, repo.root], capture_output=True, text=True, timeout=300)
+                    if p.returncode == 1:
+                        path, reproduced = w, True
+                except Exception:
+                    pass
         tail = '' if reproduced else ' no-failing-input-found'
         violations.append((o, path, reproduced))
         print(f'VIOLATION property={prop} replay={path}{tail}')
